@@ -2,6 +2,7 @@ import Abverif.Model.Handshake
 import Abverif.Proofs.Lemmas.C07Str
 import Abverif.Proofs.Lemmas.C07Stage
 import Abverif.Proofs.Lemmas.C07Origin
+import Abverif.Proofs.Lemmas.C07Render
 /-!
 C07 — the opening handshake admits exactly the valid peers and never crashes.  Property theorems.
 
@@ -993,5 +994,9 @@ example : parseUrl (fun _ => true) b!"wss://example.com:8443/p/q?x=1" = some ⟨
 example : parseUrl (fun _ => true) b!"ws://h/a;x=1?q=2" = some ⟨false, b!"h", 80, b!"/a?q=2"⟩ := by decide
 /-- … and an IPv6 host loses its brackets, so the request says `Host: ::1:9000` (known finding) -/
 example : parseUrl (fun _ => true) b!"ws://[::1]:9000/" = some ⟨false, b!"::1", 9000, b!"/"⟩ := by decide
+
+/-- `HeaderSafe` is satisfiable, so `parse_render_headers` applies to what the client and server render -/
+example : HeaderSafe (b!"X-Custom", b!"some value") :=
+  ⟨by decide, by decide +kernel, by decide +kernel, by decide +kernel, by decide +kernel⟩
 
 end Abverif.Handshake
